@@ -96,6 +96,26 @@ pub fn run(out: &mut Out, rng: &mut Rng, thorough: bool) {
                 });
             }
         }
+        // ---- project_onto_intersection on two planes that meet at a very shallow angle (2^-12 … 2^-26 rad), dyadic coordinates:
+        //      every intermediate of the formula is exact, so the result is exact however ill-conditioned the system looks
+        if rep % 3 == 1 {
+            let m = 12 + rng.below(15) as i32;
+            let e = (2f64).powi(-m);
+            let (ia, ib) = [(0usize, 1usize), (1, 2), (2, 0), (0, 2)][rng.below(4) as usize];
+            let mut a = [0.0; 3];
+            a[ia] = 1.0;
+            let mut b = a;
+            b[ib] = if rng.bool() { e } else { -e };
+            let (n0, n1) = if rng.bool() { (DVec3::from_array(a), DVec3::from_array(b)) } else { (DVec3::from_array(b), DVec3::from_array(a)) };
+            let (p0, p1, x) = (sv(rng), sv(rng), sv(rng));
+            rec(out, "poi", "shallow", format!("{} {} {} {} {}", v3(n0), v3(p0), v3(n1), v3(p1), v3(x)), move || {
+                let pa = Plane::new(n0, p0);
+                let pb = Plane::new(n1, p1);
+                let r = pa.project_onto_intersection(&pb, x);
+                let rr = pa.project_onto_intersection(&pb, r);
+                format!("{} {}", v3(r), v3(rr))
+            });
+        }
         // ---- signed_volume_tet with the four transpositions
         {
             let v: Vec<DVec3> = (0..4).map(|_| vec(rng, structured, s)).collect();
@@ -147,6 +167,28 @@ pub fn run(out: &mut Out, rng: &mut Rng, thorough: bool) {
             if signed_volume_tet(a, b, c, d) != 0. {
                 rec(out, "s4", fam, format!("{} {} {} {}", v3(a), v3(b), v3(c), v3(d)), move || sphere_str(&Sphere::from_four_points(a, b, c, d)));
             }
+        }
+        // ---- thin triangles with dyadic coordinates (every intermediate of the three-point formula is exact or nearly so):
+        //      base L along one axis, height h = L * 2^-m, apex over 0, 1/4, 1/2, 1 or 5/4 of the base; all argument orders
+        if rep % 3 == 0 {
+            let l = [1.0, 4.0, 0.125, 1024.0, 1.0 / 1048576.0][rng.below(5) as usize];
+            let m = 8 + rng.below(19) as i32;
+            let h = l * (2f64).powi(-m);
+            let t = [0.0, 0.25, 0.5, 1.0, 1.25][rng.below(5) as usize] * l;
+            let (ax, ay) = [(0, 1), (1, 2), (2, 0), (1, 0)][rng.below(4) as usize];
+            let mk = |u: f64, v: f64| {
+                let mut q = [0.0; 3];
+                q[ax] = u;
+                q[ay] = v;
+                DVec3::from_array(q)
+            };
+            let o = DVec3::new(rng.range(-2, 2) as f64, rng.range(-2, 2) as f64, rng.range(-2, 2) as f64) * l;
+            let tri = [o + mk(0., 0.), o + mk(l, 0.), o + mk(t, h)];
+            let perm = [[0, 1, 2], [0, 2, 1], [1, 0, 2], [1, 2, 0], [2, 0, 1], [2, 1, 0]][rng.below(6) as usize];
+            let (a, b, c) = (tri[perm[0]], tri[perm[1]], tri[perm[2]]);
+            rec(out, "s3", "sliver", format!("{} {} {}", v3(a), v3(b), v3(c)), move || sphere_str(&Sphere::from_three_points(a, b, c)));
+            let pts = [a, b, c];
+            rec(out, "sb3", "sliver", format!("{} {} {}", v3(a), v3(b), v3(c)), move || sphere_str(&Sphere::from_boundary_points(&pts)));
         }
         // ---- Sphere::extend / contains
         {
